@@ -78,6 +78,15 @@ pub fn exercise_loaded_hdr(rec: &mut Rec, hdr: &Multiboot2Header, opts: &HdrOpts
             match catch(|| it.next()) {
                 None => {
                     rec.t.push(format!("w{i}"), Val::Panic);
+                    let again = catch(|| it.next().map(|t| rec.ext(t)));
+                    rec.t.push(
+                        "w.after_panic",
+                        match again {
+                            None => Val::Panic,
+                            Some(None) => Val::None,
+                            Some(Some(v)) => v,
+                        },
+                    );
                     break;
                 }
                 Some(None) => {
